@@ -46,9 +46,17 @@ CHECKS["C13"] = {"category": "proof",
   "text": "DetectEncoding: every BOM selects its encoding and offset for every text length (UTF-32LE before UTF-16LE); BOM-less texts starting with a non-NUL ASCII character are detected as their encoding for every length (whole function on all texts up to 8 bytes + the analysis-loop step at an arbitrary position of an arbitrarily long text); NUL-free UTF-8 is never misdetected; WriteBom emits the exact BOM. CEncodedStreamReader<char,256>::ReadChunk/IsEnd are proved from an arbitrary well-formed state against the decoder contracts: every stream byte is handed to the decoder exactly once, in order, on whole code units, independent of the chunk boundary; a Success result strictly reduces the undecoded bytes (no hang); an incomplete tail at the end of the stream is marked or reported per policy.",
   "note": "decoders replaced by their contracts (proved in utf_transcode, LE/BE iterator adapters not under contract); only the char-target instantiation with chunk 256; CEncodedStreamWriter::Write (std::variant/visit) not under contract; istream model",
   "technique": _T + "class invariant + progress measure + ghost content tracking on the real CEncodedStreamReader; step/whole-function contracts on DetectEncoding (R2, SAT)"}
+CHECKS["C05"] = {"category": "proof",
+  "text": "Proved: every CMsgPackStringReader::ReadValue/Read*Size overload consumes exactly the offending value when it skips (overflow with Skip: head consumed, target untouched, reported not loaded; mismatch with Skip or nil: exactly one SkipValueImpl from the read position), SkipValueImpl consumes exactly head+payload for scalar/str/bin/ext values and head + count element skips for containers (recursive contract, loop contracts for every count), and the MsgPack array/binary scopes advance their element index exactly with the values consumed on every non-raising path (verified against the reader interface contract).",
+  "note": "object-scope key lookup, JSON/XML/CSV archives and the Required validator interplay are not under contract; nested container skipping is modular (depth not bounded, termination of recursion not proved)",
+  "technique": _T + "consumed-exactly-one-value postconditions; modular scope proofs against the reader interface contract with a ghost consumption counter"}
+CHECKS["C03"] = {"category": "proof",
+  "text": "Proved building blocks of out-of-order field access: CBinaryStreamReader::SetPosition reaches every offset of the stream (cached or not, forwards/backwards, after end-of-stream) and leaves a well-formed reader; CMsgPackStringReader::SetPosition/GetPosition; SkipValueImpl skips exactly one value. CSV by-name access in reverse column order is covered by the bounded native stand-in. The MsgPack object scope's key search (FindValueByKey/ResetKey/VisitKeys) is listed in the evidence only when under contract.",
+  "note": "CMsgPackReadObjectScope and JSON/XML lookups are not under contract in this round; partial claim",
+  "technique": _T + "abstract-view postconditions on SetPosition / skip (R2, SAT) + bounded native CSV by-key check"}
 _NR = "not reached yet in this round: the check is not built; see DESIGN.md §0 for the planned contracts"
 NOT_APPLICABLE = {
  "C08": "well-formedness and acceptance of JSON/XML text is decided inside RapidJSON and pugixml (third-party code outside /repo); no contract on /repo code can express it without a verified model of those libraries (DESIGN.md §4 C08)",
 }
-for _p in ["C01","C03","C05","C16","C17","C18","C19","C20"]:
+for _p in ["C01","C16","C17","C18","C19","C20"]:
     NOT_APPLICABLE.setdefault(_p, _NR)
